@@ -218,6 +218,7 @@ SPECS = {
     }, bucket_k=8),
     "C18": Spec("C18", "B", {
         "quick": {"buckets": 480, "soft_s": 70, "hard_s": 400, "recheck_every": 6},
-        "thorough": {"buckets": 6400, "soft_s": 1200, "hard_s": 2400, "recheck_every": 12},
+        # the first 273 buckets are the enumerated block: 91 model templates x 36 boundary symbols (worlds_b.c18_templates)
+        "thorough": {"buckets": 273 + 6400, "soft_s": 1500, "hard_s": 2700, "recheck_every": 12},
     }, bucket_k=12),
 }
